@@ -12,7 +12,7 @@ import subprocess
 import sys
 import tempfile
 
-VERIF = "/verif"
+VERIF = os.path.dirname(os.path.dirname(os.path.abspath(__file__)))      # the checkout this script lives in (a vp-run snapshot works)
 REPO = "/repo"
 PY = "/venv/bin/python"
 
